@@ -6,13 +6,32 @@ use crate::engine::*;
 use crate::sim::net::{key, user_data, PROTO};
 use crate::sim::world::make_content;
 use bytes::Bytes;
-use renet::{ConnectionConfig, RenetClient, RenetServer, ServerEvent};
+use renet::{ChannelConfig, ConnectionConfig, DisconnectReason, RenetClient, RenetServer, SendType, ServerEvent};
 use renet_netcode::{ClientAuthentication, ConnectToken, NetcodeClientTransport, NetcodeServerTransport, ServerAuthentication, ServerConfig};
 use std::collections::{BTreeMap, BTreeSet, VecDeque};
 use std::net::{SocketAddr, UdpSocket};
 use std::time::Duration;
 
 pub struct C20;
+
+const BIG: usize = 5 * 1024 * 1024;
+/// what the receiving side of the extra channel 3 believes the channel's budget to be
+const TIGHT: usize = 3000;
+
+fn extra(channel_id: u8, max_memory_usage_bytes: usize) -> ChannelConfig {
+    ChannelConfig { channel_id, max_memory_usage_bytes, send_type: SendType::ReliableOrdered { resend_time: Duration::from_millis(300) } }
+}
+
+/// Default channels 0-2 plus, per direction, channel 3 whose receiver has a far smaller budget than its sender and channel 4 that only the
+/// sender knows: a peer that misbehaves at the message layer (too much data, unknown channel) makes the receiving message layer end the session.
+fn stack_config(server_side: bool) -> ConnectionConfig {
+    let mut c = ConnectionConfig::default();
+    let (mine, theirs) = if server_side { (&mut c.server_channels_config, &mut c.client_channels_config) } else { (&mut c.client_channels_config, &mut c.server_channels_config) };
+    mine.push(extra(3, BIG));
+    mine.push(extra(4, BIG));
+    theirs.push(extra(3, TIGHT));
+    c
+}
 
 fn sock() -> Result<UdpSocket, Fail> {
     let s = UdpSocket::bind("127.0.0.1:0").map_err(|e| Fail::new("harness_socket", e.to_string()).sig("harness_io"))?;
@@ -49,6 +68,8 @@ struct ClientEnd {
     ever_connected_client: bool,
     last_genuine_up: u64,
     last_genuine_down: u64,
+    /// a disconnect datagram of this client object was forwarded to the server (the one way a server session ends without a datagram to the client)
+    up_disconnect_forwarded: bool,
     // message model: [direction][channel] ; direction 0 = client->server
     sent: [[Vec<Bytes>; 3]; 2],
     got_ordered: [usize; 2],
@@ -85,6 +106,7 @@ enum Op {
     DisconnectAll,
     Silence { client: usize, ticks: u32 },
     Spawn { id: u64 },
+    Poison { client: usize, to_client: bool, unknown_channel: bool },
 }
 
 impl Net {
@@ -96,7 +118,7 @@ impl Net {
         let ud = user_data(id);
         let token = ConnectToken::generate(self.now, PROTO, 600, id, self.timeout_s as i32, vec![self.front_addr], Some(&ud), &key(1)).map_err(|e| Fail::new("token", e.to_string()))?;
         let transport = NetcodeClientTransport::new(self.now, ClientAuthentication::Secure { connect_token: token }, csock).map_err(|e| Fail::new("client_transport", e.to_string()))?;
-        let client = RenetClient::new(ConnectionConfig::default());
+        let client = RenetClient::new(stack_config(false));
         self.clients.push(ClientEnd {
             id,
             transport,
@@ -121,6 +143,7 @@ impl Net {
             ever_connected_client: false,
             last_genuine_up: self.tick,
             last_genuine_down: self.tick,
+            up_disconnect_forwarded: false,
             sent: Default::default(),
             got_ordered: [0; 2],
             got_set: Default::default(),
@@ -255,6 +278,9 @@ impl Net {
                 while let Some((b, due)) = q.pop_front() {
                     if due <= tick {
                         if up {
+                            if b.first().map(|x| x & 0x0F) == Some(6) {
+                                c.up_disconnect_forwarded = true;
+                            }
                             let _ = c.back.send_to(&b, self.server_sock_addr);
                         } else {
                             let _ = self.front.send_to(&b, c.addr);
@@ -341,6 +367,9 @@ impl Net {
                             format!("server reported id {client_id} disconnected ({reason:?}) in a case without any disconnect operation where genuine datagrams kept flowing in both directions"),
                         ));
                     }
+                    if matches!(reason, DisconnectReason::ReceiveChannelError { .. } | DisconnectReason::ReceivedInvalidChannelId(_)) {
+                        ctx.label("server_msg_layer_disconnect");
+                    }
                     ctx.label("event_disconnected");
                 }
             }
@@ -387,10 +416,13 @@ impl Net {
                     format!("client object {ci} became disconnected ({:?} / {:?}) in a case without any disconnect operation where genuine datagrams kept flowing", c.client.disconnect_reason(), c.transport.disconnect_reason()),
                 ));
             }
-            // lock-step on the client side: the renet client is connected exactly when the netcode client is
-            let nc_disc = c.transport.disconnect_reason().is_some();
-            if nc_disc && !c.client.is_disconnected() {
-                // the transport marks the renet client disconnected at its next update: tolerated for one update only
+            if !was && c.client.is_disconnected() && c.transport.disconnect_reason().is_none() {
+                // the client's message layer ended the session while receiving: its transport must announce it at its next update
+                ctx.label("client_msg_layer_disconnect");
+                c.disconnect_decided = true;
+                if c.silence == 0 {
+                    c.expect_dgram_up_by = Some(self.tick + 2);
+                }
             }
         }
         self.relay(ctx);
@@ -435,8 +467,9 @@ impl Net {
                 // the netcode client already ended by other means (server's disconnect, timeout); its own decision must come with a datagram
                 c.expect_dgram_up_by = None;
             }
-            if c.expect_dgram_down_by.is_some() && !held {
-                // the netcode session already ended by other means (the client's own disconnect, timeout)
+            if c.expect_dgram_down_by.is_some() && !held && c.up_disconnect_forwarded {
+                // the netcode session may have ended by the client's own disconnect datagram, the one ending that sends nothing to the client
+                // (a timeout and disconnect_all send a disconnect datagram themselves)
                 c.expect_dgram_down_by = None;
             }
             if let Some(by) = c.expect_dgram_up_by {
@@ -482,20 +515,20 @@ impl Property for C20 {
         "fault_enumeration"
     }
     fn rule(&self) -> String {
-        "A case runs the real NetcodeServerTransport and 1-3 NetcodeClientTransports (plus reconnecting client objects with new tokens) on loopback UDP sockets through an in-path relay that the harness thread pumps after every transport call. Relay fault decision per (client, direction, datagram): forward / drop / duplicate / delay 1-6 ticks (hence reorder) / flip one bit / forward and replay an old datagram of that link; whole-silence periods; application traffic on all three default channels in both directions and broadcasts; disconnects decided by RenetClient::disconnect, NetcodeClientTransport::disconnect, RenetServer::disconnect, NetcodeServerTransport::disconnect_all and by silence (timeouts); reconnects. Oracles: right after every NetcodeServerTransport::update the ids the message layer reports connected equal the ids the netcode layer holds (client_addr, connected_clients), no disconnected connection is left, and equal the ids open in the ServerEvent stream, which alternates per id and only names ids that hold a token; every message obtained over the full stack satisfies the ordered-prefix / unordered-at-most-once / unreliable-membership oracles of its session; after the faults stop and timeout + 3 s of fault-free ticks every session for which a disconnect was decided anywhere has ended on both sides, and every session that stayed healthy has obtained all reliable messages; in 'gentle' cases (no disconnect operation, no silence, at least one genuine datagram per direction forwarded in every third of the timeout) nobody is ever disconnected whatever else the relay does. Non-trivial: at least one corrupted or replayed datagram after a handshake completed and at least one relay fault. Distinct = hash of the decoded operation trace.".into()
+        "A case runs the real NetcodeServerTransport and 1-3 NetcodeClientTransports (plus reconnecting client objects with new tokens) on loopback UDP sockets through an in-path relay that the harness thread pumps after every transport call. Relay fault decision per (client, direction, datagram): forward / drop / duplicate / delay 1-6 ticks (hence reorder) / flip one bit / forward and replay an old datagram of that link; whole-silence periods; application traffic on all three default channels in both directions and broadcasts; disconnects decided by RenetClient::disconnect, NetcodeClientTransport::disconnect, RenetServer::disconnect, NetcodeServerTransport::disconnect_all, by silence (timeouts) and by the receiving message layer itself while it processes a datagram (a peer sends more than the receiver's budget of the extra channel 3, or on a channel only the sender knows); reconnects. Oracles: right after every NetcodeServerTransport::update the ids the message layer reports connected equal the ids the netcode layer holds (client_addr, connected_clients), no disconnected connection is left, and equal the ids open in the ServerEvent stream, which alternates per id and only names ids that hold a token; every message obtained over the full stack satisfies the ordered-prefix / unordered-at-most-once / unreliable-membership oracles of its session; after the faults stop and timeout + 3 s of fault-free ticks every session for which a disconnect was decided anywhere has ended on both sides, and every session that stayed healthy has obtained all reliable messages; in 'gentle' cases (no disconnect operation, no silence, at least one genuine datagram per direction forwarded in every third of the timeout) nobody is ever disconnected whatever else the relay does. Non-trivial: at least one corrupted or replayed datagram after a handshake completed and at least one relay fault. Distinct = hash of the decoded operation trace.".into()
     }
     fn assumptions(&self) -> Vec<String> {
         vec![
             "loopback UDP delivers synchronously (measured: a datagram is readable right after send_to); a kernel drop would only look like network loss".into(),
             "socket creation failures are reported as inconclusive (exit 2), never as a violation".into(),
-            "default channel configuration (5 MB budgets) and light traffic, so channel memory never runs out".into(),
+            "default channels (5 MB budgets) and light traffic, so channel memory never runs out except on the extra channel 3 whose receiver is configured with 3000 bytes".into(),
         ]
     }
     fn pbt(&self, tier: Tier) -> PbtCfg {
         PbtCfg { cases: tier.pick(15_000, 300_000), max_len: tier.pick(1200, 5000), shrink_ms: 120_000 }
     }
     fn required_labels(&self) -> Vec<&'static str> {
-        vec!["relay_corrupt", "relay_replay", "relay_drop", "relay_dup", "relay_delay", "client_disconnect", "transport_disconnect", "server_disconnect", "disconnect_all", "timeout_by_silence", "gentle_case", "reconnect", "event_connected", "event_disconnected", "e2e_messages"]
+        vec!["relay_corrupt", "relay_replay", "relay_drop", "relay_dup", "relay_delay", "client_disconnect", "transport_disconnect", "server_disconnect", "disconnect_all", "timeout_by_silence", "gentle_case", "reconnect", "event_connected", "event_disconnected", "e2e_messages", "poison_to_client", "poison_to_server", "server_msg_layer_disconnect", "client_msg_layer_disconnect"]
     }
     fn run_choices(&self, ctx: &mut Ctx) -> Outcome {
         renetcode::verif::set_rng_seed(Some(ctx.src.u16() as u64 | 1));
@@ -520,7 +553,7 @@ impl Property for C20 {
             front_addr,
             server_sock_addr,
             st,
-            server: RenetServer::new(ConnectionConfig::default()),
+            server: RenetServer::new(stack_config(true)),
             clients: vec![],
             tick: 0,
             now,
@@ -543,7 +576,7 @@ impl Property for C20 {
         let mut serial = 0u32;
         while !ctx.src.exhausted() && ops < max_ops {
             ops += 1;
-            let w: [u32; 8] = if gentle { [60, 30, 4, 0, 0, 0, 0, 0] } else { [60, 30, 4, 3, 3, 1, 3, 3] };
+            let w: [u32; 9] = if gentle { [60, 30, 4, 0, 0, 0, 0, 0, 0] } else { [60, 30, 4, 3, 3, 1, 3, 3, 3] };
             let op = match ctx.src.weighted(&w) {
                 0 => {
                     net.do_tick(ctx)?;
@@ -652,6 +685,29 @@ impl Property for C20 {
                         ctx.label("timeout_by_silence");
                     }
                     Op::Silence { client: ci, ticks }
+                }
+                8 => {
+                    // message-layer misbehaviour of a peer: more data than the receiver's budget for channel 3, or a channel the receiver does
+                    // not know; the receiving message layer ends the session while processing the datagram
+                    let ci = ctx.src.below(net.clients.len());
+                    let to_client = ctx.src.chance(128);
+                    let unknown_channel = ctx.src.chance(100);
+                    serial += 1;
+                    let (ch, len) = if unknown_channel { (4u8, 20usize) } else { (3u8, 2 * TIGHT) };
+                    let m = make_content(ci, to_client, ch, serial, len, 0);
+                    let id = net.clients[ci].id;
+                    if to_client {
+                        if net.server.is_connected(id) && net.st.client_addr(id) == Some(net.clients[ci].back_addr) {
+                            net.server.send_message(id, ch, m);
+                            net.clients[ci].disconnect_decided = true;
+                            ctx.label("poison_to_client");
+                        }
+                    } else if net.clients[ci].client.is_connected() {
+                        net.clients[ci].client.send_message(ch, m);
+                        net.clients[ci].disconnect_decided = true;
+                        ctx.label("poison_to_server");
+                    }
+                    Op::Poison { client: ci, to_client, unknown_channel }
                 }
                 _ => {
                     // a new client object: a new id, or a reconnect of an id whose earlier session is over
